@@ -317,6 +317,24 @@ class SymCtx:
         self.called = True
         return self.ns['result']
 
+    def invoke(self, target, *args, **kwargs):
+        """call a real function/method as a side effect (e.g. from inside an external callback)"""
+        f = self.I.resolve(target) if isinstance(target, str) else (self.I.getattr(target[0], target[1]) if isinstance(target, tuple) else target)
+        return self.I.call(f, [self._lift(a) for a in args], {k: self._lift(v) for k, v in kwargs.items()})
+
+    def raiser(self, excname, *args):
+        """a callable (for Ext `returns`) that raises the named exception"""
+        def f(*_a):
+            self.I.raise_py(excname, *args)
+        return f
+
+    def virtual_time(self, clock=None):
+        """time.sleep/time.time/Thread.start/Thread.join are always the sequential models of models2.py here (the
+        native back end opts in with this call); clock = the values successive time.time() calls return
+        (non-decreasing is assumed; afterwards fresh non-decreasing values)"""
+        if clock is not None:
+            self.I.time_script = list(ops.seq_items(clock)) if ops.is_seq(clock) else list(clock)
+
     def reset_trace(self):
         del self.I.trace[:]
 
@@ -573,6 +591,11 @@ class SymCtx:
         @helper('field')
         def _field(I_, a, k):
             return I.getattr(a[0], a[1])
+
+        @helper('queue_items')
+        def _queue_items(I_, a, k):
+            """current content of a queue.Queue (oldest first)"""
+            return tuple(a[0].items)
 
         @helper('crc32')
         def _crc(I_, a, k):
